@@ -7,6 +7,8 @@ import re
 
 ROOT = os.path.dirname(os.path.dirname(os.path.abspath(__file__)))
 NOTES = {
+    "C10-C": "not detected - the same change as C07-B (a held run number is used again), written independently for C10; not reachable "
+             "through the API for the same reason (needs RECOVER)",
     "C07-B": "not detected - and not reachable: the changed path needs FSM event RECOVER (ERROR -> DEPLOYED), which no API request, timer "
              "or internal caller can issue on this tree (`MakeTransition` has no RECOVER; only the package-internal demonstration fires it); "
              "the reuse after a cancelled START is equally out of reach because a failed START leaves the environment in ERROR. The "
